@@ -207,3 +207,54 @@ Proof.
   - exact HMx.
   - apply EQ. rewrite LSf in Ht. lia.
 Qed.
+
+(* ---------- an ORTHOGONAL decomposition M = sum_t a_t v_t^T (a_a . a_b = lam_a [a = b], v orthonormal, lam non-increasing) determines the
+   squared singular values: lam_t = s_t^2 for every singular value decomposition of M.  Used for symeig_svd. ---------- *)
+Lemma orth_trunc_error m n p k (M A V : nat -> nat -> R) (lam : nat -> R) : (k <= p)%nat ->
+  (forall a b, (a < p)%nat -> (b < p)%nat -> rsum m (fun i => A i a * A i b) = if Nat.eqb a b then lam a else 0) ->
+  orthonormal_rows p n V ->
+  (forall i j, (i < m)%nat -> (j < n)%nat -> M i j = rsum p (fun t => A i t * V t j)) ->
+  rsum m (fun i => rsum n (fun j => (M i j - rsum k (fun t => A i t * V t j))^2)) = rsum (p - k) (fun t => lam (k + t)%nat).
+Proof.
+  intros Hk GA OV HM.
+  rewrite (rsum_ext m _ (fun i => rsum (p - k) (fun t => (A i (k + t)%nat)^2))).
+  2:{ intros i Hi.
+      rewrite <- (isometry n (p - k) (fun j t => V (k + t)%nat j) (fun t => A i (k + t)%nat)).
+      - apply rsum_ext; intros j Hj. f_equal. rewrite (HM i j Hi Hj). replace p with (k + (p - k))%nat at 1 by lia.
+        rewrite rsum_app. ring_simplify. apply rsum_ext; intros; ring.
+      - apply (orthonormal_rows_shift p n k (p - k) V); [lia | exact OV]. }
+  rewrite rsum_exchange. apply rsum_ext; intros t Ht.
+  rewrite (rsum_ext m _ (fun i => A i (k + t)%nat * A i (k + t)%nat)) by (intros; ring).
+  rewrite GA by lia. now rewrite Nat.eqb_refl.
+Qed.
+
+Theorem orth_singular_values m n p p' (M A V U' V' : nat -> nat -> R) (lam s' : nat -> R) :
+  (forall a b, (a < p)%nat -> (b < p)%nat -> rsum m (fun i => A i a * A i b) = if Nat.eqb a b then lam a else 0) ->
+  orthonormal_rows p n V ->
+  (forall i j, (i <= j)%nat -> (j < p)%nat -> lam j <= lam i) ->
+  (forall i j, (i < m)%nat -> (j < n)%nat -> M i j = rsum p (fun t => A i t * V t j)) ->
+  orthonormal_cols m p' U' -> orthonormal_rows p' n V' ->
+  (forall t, (t < p')%nat -> 0 <= s' t) -> (forall i j, (i <= j)%nat -> (j < p')%nat -> s' j <= s' i) ->
+  (forall i j, (i < m)%nat -> (j < n)%nat -> M i j = rsum p' (fun t => U' i t * s' t * V' t j)) ->
+  forall t, (t < p)%nat -> (t < p')%nat -> (s' t)^2 = lam t.
+Proof.
+  intros GA OV LM HM OU' OV' S0' SM' HM'.
+  set (To := fun k => rsum (p - k) (fun t => lam (k + t)%nat)).
+  assert (TE : forall k, (k <= p)%nat -> (k <= p')%nat -> To k = tail p' s' k).
+  { intros k H1 H2. apply Rle_antisym.
+    - unfold To, tail. rewrite <- (trunc_error m n p' k M U' V' s' H2 OU' OV' HM').
+      apply (eckart_young_orth m n p k M A V (fun i j => rsum k (fun t => U' i t * s' t * V' t j)) lam); try assumption.
+      exists (fun i t => U' i t * s' t), V'. intros i j _ _. reflexivity.
+    - unfold To. rewrite <- (orth_trunc_error m n p k M A V lam H1 GA OV HM). unfold tail.
+      apply (eckart_young_fn m n p' k M U' V' (fun i j => rsum k (fun t => A i t * V t j)) s'); try assumption.
+      exists A, V. intros i j _ _. reflexivity. }
+  intros t H1 H2.
+  pose proof (TE t ltac:(lia) ltac:(lia)) as E1. pose proof (TE (S t) ltac:(lia) ltac:(lia)) as E2.
+  assert (STo : To t = lam t + To (S t)).
+  { unfold To. replace (p - t)%nat with (S (p - S t)) by lia. rewrite rsum_shift. rewrite Nat.add_0_r. f_equal.
+    apply rsum_ext; intros j _. f_equal. lia. }
+  assert (STs : tail p' s' t = (s' t)^2 + tail p' s' (S t)).
+  { unfold tail. replace (p' - t)%nat with (S (p' - S t)) by lia. rewrite rsum_shift. rewrite Nat.add_0_r. f_equal.
+    apply rsum_ext; intros j _. f_equal. f_equal. lia. }
+  lra.
+Qed.
